@@ -22,6 +22,10 @@ def make(family, rng, tier):
         scn = sysgen.gen_uncontended(rng, tier)
         scn["oracles"] = ["uncontended", "stats"]
         return scn
+    if family == "big":
+        scn = sysgen.gen_bigrun(rng, tier)
+        scn["oracles"] = ORACLES
+        return scn
     if family == "trace":
         # "generated or trace": the same recount over a run fed by the real trace reader (rows in arrival order)
         scn = base.via_trace(sysgen.gen(rng, rng.choice(ALGOS) if ALGOS else None, PROP, tier), rng, mode="sorted")
@@ -45,7 +49,7 @@ def plan(tier):
 def plan(tier):  # noqa: F811
     q = tier == "quick"
     return [("sys", 4000 if q else 80000), ("gen", 400 if q else 8000), ("uncontended", 3000 if q else 50000),
-            ("chaos", 1000 if q else 20000), ("trace", 400 if q else 8000)]
+            ("chaos", 1000 if q else 20000), ("trace", 400 if q else 8000), ("big", 4 if q else 40)]
 
 
 WANT_PROBES = ["pipeline_id_reused", "uncontended_checked", "empty_class", "nothing_arrived", "nothing_finished", "pipelines_completed"]
